@@ -64,6 +64,29 @@ def corpus():
     return out
 
 
+def malformed():
+    """designs the bundle passes refuse (each is one edit away from a corpus design)"""
+    defs = [_def("B", [("x", 1), ("y", 2)])]
+    leaf = dict(name="Leaf", ports=[], sigs=[], bundles=[_b("bp", 0, port=True)],
+                insts=[_i("e", ["ext", 0, 1], [["a", ["bm", "bp", ["x"]]]]), _i("f", ["ext", 1, 1], [["a", ["bm", "bp", ["y"]]]])])
+    r2 = dict(name="R2", ports=[["a", 1, "inout"], ["b", 2, "inout"]], sigs=[], bundles=[],
+              insts=[_i("e", ["ext", 0, 1], [["a", ["sig", "a"]]]), _i("f", ["ext", 1, 1], [["a", ["sig", "b"]]])])
+
+    def top(conn, n=0):
+        return dict(defs=defs, exts=[PIN, PIN2], top=1, style="proc", mods=[
+            leaf, dict(name="T", ports=[], sigs=[["s", 1], ["w", 2]], bundles=[], insts=[_i("l", ["mod", 0], [["bp", conn]], n=n)])])
+    out = [
+        top(["anon", [["x", ["sig", "s"]], ["y", ["sig", "w"]], ["extra", ["sig", "s"]]], "kw"]),      # a member the port does not have
+        top(["anon", [["x", ["sig", "s"]]], "kw"]),                                                    # a member is missing
+        top(["anon", [["x", ["sig", "s"]], ["y", ["nc", 1, None]]], "kw"]),                            # a no-connect inside an anonymous bundle
+        top(["anon", [["x", ["sig", "s"]], ["y", ["sig", "w"]], ["extra", ["sig", "s"]]], "dict"], n=2),
+        dict(defs=[json.loads(json.dumps(c01b.DIFF))], exts=[PIN, PIN2], top=1, style="class", mods=[
+            r2, dict(name="T1", ports=[], sigs=[["s", 1], ["w", 2], ["v", 2]], bundles=[],
+                     insts=[_i("pr", ["mod", 0], [["a", ["sig", "s"]], ["b", ["anon", [["p", ["sig", "w"]], ["n", ["sig", "v"]], ["q", ["sig", "v"]]], "kw"]]], pair=True)])]),
+    ]
+    return out
+
+
 WHAT = {2: "the model of the bundle passes rejects a design on which the implementation satisfies the property, or names the model fixes "
            "(flattened ports / signals, Pair members, terminals) differ from the implementation's (tie broken)",
         4: "the package of the model (bundle_passes then pipeline) does not have the nets of the bundle design (contradicts C01G_bundles_end_to_end)",
@@ -138,6 +161,22 @@ def run_tie(run, tier, seed):
         run.violation(f"C01:bundle-passes:{c}:" + json.dumps(every[i], sort_keys=True), WHAT.get(c, f"code {c}"),
                       dict(kind="tie-broken" if c == 2 else "checker-inconsistency", code=c, stream="bundle-passes", fragment="bundles",
                            case=every[i], impl=outs[i], failing_cases=len(rest)), found_input=False)
+    # malformed: what the passes must refuse
+    bad_d = malformed()
+    bouts = core.run_worker_sharded("c01b", [dict(design=d) for d in bad_d])
+    bres = dict(core.coq_eval_cases("C01", "bpasses_bad", IMPORTS, "c01fb_case", [c_case(d, o) for d, o in zip(bad_d, bouts)],
+                                    "run_cases (fun c => 100 + chk_c01g_reject c)", chunk=12, timeout=600))
+    bcode = {i: bres[i] - 100 for i in range(len(bad_d))}
+    run.stream("bundle-passes-malformed", len(bad_d), len({json.dumps(d) for d in bad_d}),
+               refused_by_model_and_impl=sum(1 for v in bcode.values() if v == 0), rejected_by_impl=sum(1 for o in bouts if o["pkg"] is None),
+               rule="every design has one connection the bundle passes must refuse (extra / missing / no-connect member of an anonymous bundle); distinct by design")
+    for i, c in sorted(bcode.items()):
+        if c != 0:
+            what = ("the implementation exports a package for a connection the bundle passes must refuse (the model refuses it)" if c == 2
+                    else "the model of the bundle passes does not refuse a malformed design (harness defect)")
+            run.violation(f"C01:bundle-passes-malformed:{c}:" + json.dumps(bad_d[i], sort_keys=True), what,
+                          dict(kind="tie-broken" if c == 2 else "harness-inconsistency", code=c, stream="bundle-passes-malformed", fragment="bundles",
+                               case=bad_d[i], impl=bouts[i]), found_input=False)
     run.coverage["bundle_passes_tie"] = dict(designs=m, inside=inside, identical=count(0), invented_differ=count(7),
                                              outside_frag_ok2=count(8), not_wf=count(9))
 
